@@ -127,3 +127,118 @@ pub fn selftest() -> bool {
     }
     inside.is_some() && outside.is_none() && reads >= 1
 }
+
+// ---------------------------------------------------------------------------------------
+// Machine seam (part of F12): the number of CPUs. `std::thread::available_parallelism`
+// (and the `num_cpus` crate) end in `sched_getaffinity` / `sysconf(_SC_NPROCESSORS_*)`.
+// A change that sizes chunks, shards or helper threads by it is fine as long as results do
+// not depend on it; if they do, the same call gives another answer on another machine. The
+// reference child sees the real machine; inside a guarded call on a simulated thread, in
+// runs with a perturbation plan, the library sees 1, 2, 3, 5 … CPUs (never more than there
+// are, so a library that pins or spawns that many threads is not misled into oversubscribing).
+
+static CPU_READS: AtomicU64 = AtomicU64::new(0);
+
+type AffinityFn = unsafe extern "C" fn(libc::pid_t, libc::size_t, *mut libc::cpu_set_t) -> libc::c_int;
+type SysconfFn = unsafe extern "C" fn(libc::c_int) -> libc::c_long;
+
+fn real_sym(name: &'static [u8], slot: &'static OnceLock<usize>) -> usize {
+    *slot.get_or_init(|| unsafe { libc::dlsym(libc::RTLD_NEXT, name.as_ptr() as *const c_char) as usize })
+}
+
+const CPU_CHOICES: &[u64] = &[1, 2, 3, 5, 7, 12];
+
+fn pretended_cpus(plan: u64, real: u64) -> u64 {
+    let c = CPU_CHOICES[(mix(plan, 0xC9) % CPU_CHOICES.len() as u64) as usize];
+    c.min(real.max(1))
+}
+
+pub fn take_cpu_reads() -> u64 {
+    CPU_READS.swap(0, Ordering::Relaxed)
+}
+
+/// # Safety
+/// Same contract as libc's `sched_getaffinity`.
+#[no_mangle]
+pub unsafe extern "C" fn sched_getaffinity(pid: libc::pid_t, size: libc::size_t, set: *mut libc::cpu_set_t) -> libc::c_int {
+    static REAL: OnceLock<usize> = OnceLock::new();
+    let p = real_sym(b"sched_getaffinity\0", &REAL);
+    if p == 0 {
+        return -1;
+    }
+    let f = std::mem::transmute::<usize, AffinityFn>(p);
+    let rc = f(pid, size, set);
+    if rc != 0 || set.is_null() || !crate::hook::in_call_fast() || !crate::clock::is_sim_thread() {
+        return rc;
+    }
+    CPU_READS.fetch_add(1, Ordering::Relaxed);
+    let plan = PLAN.load(Ordering::Relaxed);
+    if plan == 0 {
+        return rc;
+    }
+    // keep only the first k CPUs of the real mask
+    let bytes = std::slice::from_raw_parts_mut(set as *mut u8, size);
+    let real: u64 = bytes.iter().map(|b| b.count_ones() as u64).sum();
+    let mut keep = pretended_cpus(plan, real);
+    for b in bytes.iter_mut() {
+        let mut nb = 0u8;
+        for bit in 0..8 {
+            if *b & (1 << bit) != 0 && keep > 0 {
+                nb |= 1 << bit;
+                keep -= 1;
+            }
+        }
+        *b = nb;
+    }
+    rc
+}
+
+/// # Safety
+/// Same contract as libc's `sysconf`.
+#[no_mangle]
+pub unsafe extern "C" fn sysconf(name: libc::c_int) -> libc::c_long {
+    static REAL: OnceLock<usize> = OnceLock::new();
+    let p = real_sym(b"sysconf\0", &REAL);
+    if p == 0 {
+        return -1;
+    }
+    let f = std::mem::transmute::<usize, SysconfFn>(p);
+    let v = f(name);
+    if (name == libc::_SC_NPROCESSORS_ONLN || name == libc::_SC_NPROCESSORS_CONF)
+        && v > 0
+        && crate::hook::in_call_fast()
+        && crate::clock::is_sim_thread()
+    {
+        CPU_READS.fetch_add(1, Ordering::Relaxed);
+        let plan = PLAN.load(Ordering::Relaxed);
+        if plan != 0 {
+            return pretended_cpus(plan, v as u64) as libc::c_long;
+        }
+    }
+    v
+}
+
+/// Self-test: does `std::thread::available_parallelism` reach this seam?
+pub fn selftest_cpus() -> bool {
+    let outside = std::thread::available_parallelism().map_or(0, |n| n.get());
+    crate::clock::set_sim_thread(true);
+    let before = CPU_READS.load(Ordering::Relaxed);
+    let mut differs = false;
+    for plan in 1..64u64 {
+        set_plan(plan);
+        crate::hook::begin_call(0);
+        let inside = std::thread::available_parallelism().map_or(0, |n| n.get());
+        crate::hook::end_call();
+        if inside != outside && inside >= 1 {
+            differs = true;
+            break;
+        }
+    }
+    set_plan(0);
+    crate::clock::set_sim_thread(false);
+    let reads = CPU_READS.load(Ordering::Relaxed) - before;
+    CPU_READS.store(before, Ordering::Relaxed);
+    PERTURBED.store(0, Ordering::Relaxed);
+    // on a one-CPU machine nothing can differ; the seam was still reached
+    reads >= 1 && (differs || outside <= 1)
+}
